@@ -36,7 +36,7 @@ CONSTANTS Callers,   \* caller (thread) names
           DiskLike,  \* TRUE: an entry is visible to `in` while it is being written
           ProgSet    \* set of program assignments [Callers -> Seq(op)] TLC may choose from
 
-(* op = [t |-> "gs", k, g |-> "ok"|"raise", b |-> "ok"|"raise"]  |  [t |-> "rmv", k] *)
+(* op = [t |-> "gs", k, g |-> "ok"|"raise", b |-> "ok"|"raise", n |-> "none"|"gs"|"rmv"]  |  [t |-> "rmv", k, ..] *)
 
 VARIABLES prog,      \* the program assignment of this behaviour (chosen in Init, never changes)
           pc, ip,    \* per caller: control point, index of the current operation
@@ -52,10 +52,12 @@ Indices == {Idx[k] : k \in Keys}
 Op(c)   == prog[c][ip[c]]
 K(c)    == Op(c).k
 I(c)    == Idx[K(c)]
+Nest(c) == Op(c).n
 Contains(k) == entry[k] = "present" \/ (DiskLike /\ entry[k] = "writing")
 
 TypeOK == /\ pc \in [Callers -> {"next","done","gsR","gsC1","gsGet","gsRelR","gsW","gsC2","gsSwGet","gsPutB",
-                                 "gsPutE","gsSw","gsEnter","body","gsRelF","gsErr","rmP","rmW","rmB","rmRel"}]
+                                 "gsPutE","gsSw","gsEnter","body","gsRelF","gsErr","rmP","rmW","rmB","rmRel",
+                                 "nR","nC","nGet","nBody","nRel","nRmP","nRmRaise","bodyN"}]
           /\ \A i \in Indices : arr[i] \in Int
           /\ \A k \in Keys : entry[k] \in {"absent","writing","present"}
 
@@ -115,7 +117,7 @@ EnterAfterPut(c) == /\ pc[c] = "gsEnter" /\ rd' = [rd EXCEPT ![K(c)] = @ + 1]
                     /\ bad' = IF entry[K(c)] # "present" THEN bad \cup {"partial"} ELSE bad
                     /\ Goto(c,"body") /\ UNCHANGED <<prog,ip,arr,held,entry,wr,gcalls>>
 (* the body finishes (normally or by raising: Op(c).b) - either way the `finally` releases *)
-BodyExit(c) == /\ pc[c] = "body" /\ rd' = [rd EXCEPT ![K(c)] = @ - 1]
+BodyExit(c) == /\ (pc[c] = "bodyN" \/ (pc[c] = "body" /\ Nest(c) = "none")) /\ rd' = [rd EXCEPT ![K(c)] = @ - 1]
                /\ bad' = IF entry[K(c)] # "present" THEN bad \cup {"changed-under-reader"} ELSE bad
                /\ Goto(c,"gsRelF") /\ UNCHANGED <<prog,ip,arr,held,entry,wr,gcalls>>
 RelReadFinal(c) == /\ pc[c] = "gsRelF"
@@ -141,6 +143,32 @@ RelWrite(c) == /\ pc[c] = "rmRel"
                /\ arr' = [arr EXCEPT ![I(c)] = 0] /\ held' = [held EXCEPT ![c][K(c)] = 0]
                /\ Goto(c,"next") /\ Finish(c) /\ UNCHANGED <<prog,entry,rd,wr,gcalls,bad>>
 
+(* ---------------- nesting inside a body (Op(c).n): "gs" = get_set on the SAME key again (a re-entrant read: the
+   caller already holds a read lock, so the table value is >= 1 and the attempt always succeeds), "rmv" = rmv of the same
+   key, which must refuse with an exception (the caller holds a read lock: _acquire_write_lock 237-238) and change
+   nothing.  Nesting on a different key that collides is excluded by the property. ---------------- *)
+NestStart(c) == /\ pc[c] = "body" /\ Nest(c) # "none" /\ held[c][K(c)] = 1
+                /\ Goto(c, IF Nest(c) = "gs" THEN "nR" ELSE "nRmP")
+                /\ UNCHANGED <<prog,ip,arr,held,entry,rd,wr,gcalls,bad>>
+NTryRead(c) == /\ pc[c] = "nR" /\ arr[I(c)] >= 0
+               /\ arr' = [arr EXCEPT ![I(c)] = @ + 1] /\ held' = [held EXCEPT ![c][K(c)] = @ + 1]
+               /\ Goto(c,"nC") /\ UNCHANGED <<prog,ip,entry,rd,wr,gcalls,bad>>
+NCheck(c) == /\ pc[c] = "nC" /\ Goto(c,"nGet")
+             /\ bad' = IF Contains(K(c)) THEN bad ELSE bad \cup {"vanished-under-reader"}
+             /\ UNCHANGED <<prog,ip,arr,held,entry,rd,wr,gcalls>>
+NInnerGet(c) == /\ pc[c] = "nGet" /\ rd' = [rd EXCEPT ![K(c)] = @ + 1]
+                /\ bad' = IF entry[K(c)] # "present" THEN bad \cup {"partial"} ELSE bad
+                /\ Goto(c,"nBody") /\ UNCHANGED <<prog,ip,arr,held,entry,wr,gcalls>>
+NBodyExit(c) == /\ pc[c] = "nBody" /\ rd' = [rd EXCEPT ![K(c)] = @ - 1]
+                /\ Goto(c,"nRel") /\ UNCHANGED <<prog,ip,arr,held,entry,wr,gcalls,bad>>
+NRelRead(c) == /\ pc[c] = "nRel"
+               /\ arr' = [arr EXCEPT ![I(c)] = @ - 1] /\ held' = [held EXCEPT ![c][K(c)] = @ - 1]
+               /\ Goto(c,"bodyN") /\ UNCHANGED <<prog,ip,entry,rd,wr,gcalls,bad>>
+NRmvProbe(c) == /\ pc[c] = "nRmP" /\ Goto(c,"nRmRaise")       \* `key in self` is true: the caller is reading the entry
+                /\ bad' = IF Contains(K(c)) THEN bad ELSE bad \cup {"vanished-under-reader"}
+                /\ UNCHANGED <<prog,ip,arr,held,entry,rd,wr,gcalls>>
+NRmvRaise(c) == /\ pc[c] = "nRmRaise" /\ Goto(c,"bodyN")       \* CobaException: nothing changes, the outer body goes on to its exit
+                /\ UNCHANGED <<prog,ip,arr,held,entry,rd,wr,gcalls,bad>>
 TryWriteGs(c)  == TryWrite(c,"gsW","gsC2")
 TryWriteRmv(c) == TryWrite(c,"rmW","rmB")
 SwitchPut(c)   == Switch(c,"gsSw","gsEnter")
@@ -151,6 +179,7 @@ Step(c) == \/ Dispatch(c) \/ TryRead(c) \/ Check1(c) \/ InnerGet(c) \/ RelReadMi
            \/ SwitchPut(c) \/ SwitchGet(c) \/ EnterAfterPut(c)
            \/ BodyExit(c) \/ RelReadFinal(c) \/ ErrRelease(c)
            \/ RmvProbe(c) \/ TryWriteRmv(c) \/ InnerRmv(c) \/ RelWrite(c)
+           \/ NestStart(c) \/ NTryRead(c) \/ NCheck(c) \/ NInnerGet(c) \/ NBodyExit(c) \/ NRelRead(c) \/ NRmvProbe(c) \/ NRmvRaise(c)
 Next == \E c \in Callers : Step(c)
 Spec == Init /\ [][Next]_vars /\ \A c \in Callers : WF_vars(Step(c))
 
